@@ -1,8 +1,22 @@
-(* C01 - placeholder while the product invariant is being proved (full statement follows in a later commit). *)
+(* C01 - Declared order: blocks, then actions of a sequence, each gated on success.
+
+   The monitor mon_order (MonC01.v) is the formal statement of the property over one observed trace of plugin
+   events: (i) blocks one at a time in declared order, (ii) within a sequence the actions one at a time, in index
+   order, each invoked only after its predecessor's last return was ok, nothing after a failed action,
+   (iii) every sequence action only after the completed all-ok run of the plan's and the block's pre group and
+   of the initial run of their continuous groups, (iv) a scope's post group only after its sequences, its
+   deferred group only after its post group and its sequences.
+
+   The theorem: on EVERY trace the engine automaton (coq/engine/Auto.v: step, run, init) accepts, for every
+   well-formed shape - all plans, all plugin outcomes, all interleavings the automaton admits - the monitor
+   holds, at every prefix (run is prefix-closed: a rejected event ends the run).  Proved by the product invariant
+   InvC01.R, kept by every epsilon-move (InvC01Plan.eps_R) and every handler (MonC01Proofs.h_R). *)
 From Coercion.Base Require Import Plan.
-From Coercion.Engine Require Import Shape Event Accept.
+From Coercion.Engine Require Import Shape Event Auto PlanSM Accept.
 From Coercion.C01 Require Import MonC01 MonC01Proofs.
 
-Theorem c01_empty_trace_partial : forall sh : shape, mon_order (sh, []) = true.
-Proof. exact mon_order_nil. Qed.
-Print Assumptions c01_empty_trace_partial.
+Theorem c01_order_and_gates :
+  forall (sh : shape) (tr : list event) (s : st),
+    shape_wf sh = true -> run sh init tr = Some s -> mon_order (sh, tr) = true.
+Proof. exact c01_order. Qed.
+Print Assumptions c01_order_and_gates.
